@@ -148,7 +148,10 @@ def rule_rule_keyed(ctx, rep):
         # findings come out of a helper that returns None without detector results); None is falsy, so FNONE and FINDINGS exclude each other
         combos = [x for x in consistent_assignments_state(fa.state_at(c), atom, ["RESULTS_NONE", "FINDINGS", "FNONE"]) if not (x["FNONE"] and x["FINDINGS"])]
         bad = [x for x in combos if x["RESULTS_NONE"] is False and x["FINDINGS"] is False]
-        passes = fvar is not None and len(c.args) >= 2 and unparse(c.args[1]) == "file_context"
+        a1 = c.args[1] if len(c.args) >= 2 else next((k.value for k in c.keywords if k.arg == "file_context"), None)
+        x1 = r.expand(a1) if isinstance(a1, ast.Name) else a1
+        # the second argument is the FileContext built in this function (whatever the local is called)
+        passes = fvar is not None and isinstance(x1, ast.Call) and r.callee_qname(x1) == "codemodder.file_context.FileContext"
         # the findings handed over are the per-file list built above
         same_list = fvar == FV
         rep.check("R-RULE-KEYED", fn.qname, fn.loc(c), not bad and passes and same_list, "short-circuit",
